@@ -555,7 +555,8 @@ Proof.
   assert (Hself : In (q, n) [(p, @None unreach_msg)] -> passes rules q = true).
   { intros [H|[]]. inversion H; subst. exact Hp. }
   destruct (beq_text (p_tonode p) self).
-  - destruct (beq_text (p_toservice p) svc_ping); [apply node_handle_passes|].
+  - destruct (beq_text (p_toservice p) svc_ping);
+      [destruct (beq_text (p_fromservice p) svc_ping); [simpl; tauto | apply node_handle_passes]|].
     destruct (beq_text (p_toservice p) svc_unreach); auto.
     destruct listening; auto.
     destruct (beq_text (p_fromnode p) self); [simpl; tauto|]. apply emit_passes.
